@@ -31,12 +31,14 @@ SIG_A = "C14:F11a:file-case-collision"
 SIG_B = "C14:F11b:constant-redeclared"
 SIG_C = "C14:F11c:field-vs-method"
 SIG_D = "C14:F11d:internal-ident-redeclared"
+SIG_E = "C14:F11e:method-redeclared"
 
 CLASS_PATTERNS = [
     ("a", SIG_A, re.compile(r"case-insensitive (file name|import) collision")),
     ("b", SIG_B, re.compile(r"constants/constants\.go:\d+:\d+: \w+ redeclared")),
     ("c", SIG_C, re.compile(r"field and method with the same name")),
     ("d", SIG_D, re.compile(r"gen/internal/[^\s:]+\.go:\d+:\d+: \w+ redeclared in this block")),
+    ("e", SIG_E, re.compile(r"method \w+\.\w+ already declared")),
 ]
 
 
@@ -372,49 +374,79 @@ class MutGen:
         return base + "\n".join(lines) + "\n"
 
 
-def corrupt(rng, text):
-    """make a schema (very probably) invalid: the reject path of the generator"""
+CORRUPTIONS = ["missing-semicolon", "unknown-type", "duplicate-type", "duplicate-function", "token-garbage", "zero-tag", "stray-token",
+               "lowercase-type", "duplicate-field", "unbalanced-paren"]
+
+
+def corrupt(rng, text, how=None):
+    """make a schema (very probably) invalid: the reject path of the generator.  Returns (text, kind)."""
+    how = how or rng.choice(CORRUPTIONS)
     lines = text.split("\n")
-    body = [i for i, l in enumerate(lines) if l.strip().endswith(";") and "?" not in l.split("=")[0][:12] and "#" not in l.split(" ")[0]]
-    k = rng.randrange(7)
-    if not body:
+    decl = [i for i, l in enumerate(lines) if l.strip().endswith(";") and re.match(r"^[a-z][\w.]* ", l) and "?" not in l.split(" ")[0] and "#" not in l.split(" ")[0]]
+    funs = [i for i, l in enumerate(lines) if l.strip().endswith(";") and l.startswith("@")]
+    if not decl:
         return text + "garbage here\n", "garbage"
-    i = rng.choice(body)
+    i = rng.choice(decl)
     l = lines[i]
-    if k == 0:
+    if how == "missing-semicolon":
         lines[i] = l.replace(";", "", 1)
-        return "\n".join(lines), "missing-semicolon"
-    if k == 1:
+    elif how == "unknown-type":
         lines[i] = l.replace(" = ", " = unknown.Type9 ", 1) if rng.random() < 0.5 else re.sub(r":(\w+)", ":noSuchType9", l, count=1)
-        return "\n".join(lines), "unknown-type"
-    if k == 2:
+    elif how == "duplicate-type":
         lines.insert(i, l)
-        return "\n".join(lines), "duplicate-declaration"
-    if k == 3:
+    elif how == "duplicate-function":
+        if funs:
+            j = rng.choice(funs)
+            lines.insert(j, lines[j])
+        else:
+            lines.append("@read rs.dupFn x:int => Int;")
+            lines.append("@read rs.dupFn y:int => Int;")
+    elif how == "token-garbage":
         toks = l.split(" ")
         j = rng.randrange(len(toks))
         toks[j] = rng.choice(["(", ")", "{", "%%", "=", "?", "[", "x:", "1:int"])
         lines[i] = " ".join(toks)
-        return "\n".join(lines), "token-garbage"
-    if k == 4:
-        lines[i] = re.sub(r"^(@\w+ )?([\w.]+)", lambda m: (m.group(1) or "") + m.group(2) + "#00000000", l, count=1)
-        return "\n".join(lines), "zero-tag"
-    if k == 5:
-        lines[i] = re.sub(r"(\w+):", r"\1 \1:", l, count=1)
-        return "\n".join(lines), "stray-token"
-    lines[i] = re.sub(r" = ([\w.]+)", lambda m: " = " + m.group(1).lower(), l, count=1)
-    return "\n".join(lines), "lowercase-type"
+    elif how == "zero-tag":
+        lines[i] = re.sub(r"^([\w.]+)", lambda m: m.group(1) + "#00000000", l, count=1)
+    elif how == "stray-token":
+        lines[i] = re.sub(r"(\w+):", r"\1 \1:", l, count=1) if ":" in l else l.replace(" = ", " stray = ", 1)
+    elif how == "lowercase-type":
+        lines[i] = re.sub(r" = ([\w.]+)", lambda m: " = " + m.group(1).lower(), l, count=1)
+    elif how == "duplicate-field":
+        m = re.search(r" (\w+):(\S+)", l)
+        lines[i] = l.replace(" = ", f" {m.group(1)}:int = ", 1) if m else l.replace(" = ", " dupf:int dupf:int = ", 1)
+    else:   # unbalanced-paren
+        lines[i] = l.replace(" = ", " zz:(vector int = ", 1)
+    return "\n".join(lines), how
+
 
 
 # --------------------------------------------------------------------------- C++ (C31)
 
 CPP_FLAGS = ["-std=c++20", "-O1", "-w"]
 CPP_CACHE = VERIF / "build" / "cpp"
+CPP_METHODS = {"read", "write", "read_boxed", "write_boxed", "write_json", "tl_tag", "tl_name", "read_result", "write_result",
+               "read_write_result"}
+
+
+def trim_for_cpp(text):
+    """drop the combinators the C++ generator cannot express: a field named like a generated method.
+    Returns (trimmed text, [dropped combinator names])."""
+    out, dropped = [], []
+    for stmt in re.split(r"(?<=;)", text):
+        body = re.sub(r"//[^\n]*", "", stmt)
+        m = re.match(r"\s*(?:@\w+\s+)*([a-z][\w.]*)", body)
+        fields = set(re.findall(r"(?<![\w.{])([a-z_]\w*):", body))
+        if m and fields & CPP_METHODS:
+            dropped.append(m.group(1))
+            continue
+        out.append(stmt)
+    return "".join(out), dropped
 
 
 class CppPkg:
     """C++ code generated by the legacy generator (`tlgen --language=cpp`) for a set of schema files,
-    compiled with harness/cpp/driver.cpp.  Object files and the linked driver are cached under
+    compiled with harness/cpp/driver.cpp.  The linked driver is cached under
     /verif/build/cpp/<hash of generated sources + driver + flags>."""
 
     def __init__(self, scratch, name, tlgen, files):
@@ -496,3 +528,43 @@ class CppPkg:
             shutil.rmtree(tmp, ignore_errors=True)
         self.exe = exe
         return exe.exists()
+
+
+def cpp_repo_units(scratch, quick=True):
+    """the repository schemas C31 drives through C++ (trimmed by trim_for_cpp): [(name, files, full, dropped)]"""
+    tls = REPO / "internal/tlcodegen/test/tls"
+    d = Path(scratch) / "schemas"
+    d.mkdir(parents=True, exist_ok=True)
+    groups = [("cpp", [tls / "cpp.tl"]), ("cases", [tls / "cases.tl"])]
+    if not quick:
+        groups += [("goldmaster", [tls / "goldmaster.tl", tls / "goldmaster2.tl", tls / "goldmaster3.tl"]), ("schema", [tls / "schema.tl"])]
+    out = []
+    for name, srcs in groups:
+        files, dropped_all = [], []
+        for s in srcs:
+            txt, dropped = trim_for_cpp(s.read_text())
+            dropped_all += dropped
+            p = d / f"{name}_{s.name}"
+            p.write_text(txt)
+            files.append(p)
+        out.append((name, files, srcs if dropped_all else None, dropped_all))
+    return out
+
+
+def warm_cpp_cache(quick=True):
+    """setup hook: pre-build the C++ drivers C31 needs (minutes the first time, a no-op afterwards)"""
+    import tempfile
+    import schema_ir
+    scratch = Path(tempfile.mkdtemp(prefix="verif-cppwarm-", dir="/var/tmp"))
+    try:
+        bins, err = schema_ir.build_tools(scratch, which=("tlgen",))
+        if err:
+            return {"error": err}
+        res = {}
+        for name, files, full, dropped in cpp_repo_units(scratch, quick):
+            c = CppPkg(scratch, name, bins["tlgen"], files)
+            ok = c.generate() and c.build()
+            res[name] = {"ok": ok, "cached": c.cached, "seconds": c.build_s, "hash": c.hash}
+        return res
+    finally:
+        shutil.rmtree(scratch, ignore_errors=True)
